@@ -17,6 +17,8 @@ Failed(r) ==
         THEN {} ELSE {"Bounded"})
   \cup (IF (\A i \in DOMAIN r.slens : r.slens[i] = r.tlen)
            /\ (\A i \in DOMAIN r.keys : \A j \in DOMAIN r.keys[i].vls : r.keys[i].vls[j] = r.keys[i].tl)
+           \* (an interface / disk history never holds more points than the instance has integration times)
+           /\ (\A i \in DOMAIN r.keys : r.keys[i].tl <= r.tlen)
         THEN {} ELSE {"Aligned"})
   \cup (IF r.produced => (r.elapsed >= 0 /\ r.elapsed >= r.period) THEN {} ELSE {"PeriodGate"})
   \cup (IF \A i \in DOMAIN r.cpu : r.cpu[i] >= 0 /\ r.cpu[i] <= 100000 * r.cores THEN {} ELSE {"CpuRange"})
